@@ -5,21 +5,30 @@ package main
 // requests are built exactly as the client does (cookie sealed under a key of
 // the provider, NewRequestPacket, EncodePacket) and delivered unchanged and
 // mutated, to the IP listener as UDP payload (kind srv.ip) and to the SCION
-// listener inside a SCION/UDP packet (kind srv.scion); "no reply" is decided by
-// a plain 48-byte sentinel request sent afterwards from the same socket (the
+// listener inside a SCION/UDP packet, without and with a valid SCION packet
+// authenticator option (kind srv.scion, tag spao); "no reply" is decided by a
+// plain 48-byte sentinel request sent afterwards from the same socket (the
 // listener goroutine that owns this 4-tuple answers in order).  A sentinel that
 // goes unanswered is a failing case and ends the run with a non-zero status.
 //
-// Every reply is verified as the client does (DecodePacket + ProcessResponse
-// under the session's S2C key with the identifier of the request); every
-// cookie it carries is opened with the provider's key (Get + Decrypt) and must
-// name the provider's current key and yield exactly the session's algorithm and
-// keys; after an accepted honest request a follow-up request that uses one of
-// the re-issued cookies is sent and must be accepted as well.
+// Every reply is judged by the harness's own code (own.go: TLV walk + miscreant
+// with the keys the harness holds): it must authenticate under the session's S2C
+// key over the bytes in front of its authenticator with the identifier of the
+// request; every cookie it carries must name the provider's current key, open
+// under it and yield exactly the session's algorithm and keys; after an accepted
+// honest request a follow-up request that uses one of the re-issued cookies is
+// sent and must be accepted as well.  Datagrams of 48 bytes or fewer are sent
+// too: a plain request is answered without NTS, a shorter one not at all.
+//
+// The real NTS-KE server (server.StartNTSKEServerIP) is run once with the real
+// ntske.Fetcher as its client (kind ke.real): the keys inside the cookies it
+// issues must be the client's exported keys by direction, and the first request
+// built from them must be answered by the listener.
 
 import (
 	"bytes"
 	"context"
+	"crypto/tls"
 	"encoding/binary"
 	"fmt"
 	"log/slog"
@@ -28,15 +37,11 @@ import (
 	"sync"
 	"time"
 
-	"github.com/google/gopacket"
-	"github.com/scionproto/scion/pkg/addr"
-	"github.com/scionproto/scion/pkg/slayers"
-	"github.com/scionproto/scion/pkg/slayers/path/empty"
-
 	"example.com/scion-time/core/server"
 	"example.com/scion-time/core/timebase"
 	"example.com/scion-time/net/nts"
 	"example.com/scion-time/net/ntske"
+	"example.com/scion-time/net/scion"
 
 	"verifharness/lib"
 )
@@ -99,6 +104,9 @@ func getLsns() []*lsn {
 	server.StartIPServer(context.Background(), log, ipDst, 0, theProvider)
 	scDst := &net.UDPAddr{IP: ip, Port: scionPort}
 	server.StartSCIONServer(context.Background(), log, "" /* no daemon */, scDst, 0, theProvider)
+	// the real NTS-KE server, announcing the IP listener
+	server.StartNTSKEServerIP(context.Background(), log, ip, lsnPort, &tls.Config{
+		Certificates: []tls.Certificate{selfSigned()}, MinVersion: tls.VersionTLS13, NextProtos: []string{"ntske/1"}}, theProvider)
 	for _, sc := range []bool{false, true} {
 		c, err := net.ListenUDP("udp4", &net.UDPAddr{IP: ip, Port: 0})
 		if err != nil {
@@ -116,71 +124,44 @@ func getLsns() []*lsn {
 
 // ---- SCION/UDP encapsulation (empty path: client and server in one AS) ----
 
-func (l *lsn) wrap(payload []byte) []byte {
+func (l *lsn) wrap(payload []byte, spao bool) []byte {
 	if !l.scion {
 		return payload
 	}
-	var scn slayers.SCION
-	scn.FlowID = 1
-	scn.NextHdr = slayers.L4UDP
-	scn.PathType = empty.PathType
-	scn.Path = empty.Path{}
-	scn.DstIA, scn.SrcIA = addr.IA(srvIA), addr.IA(cliIA)
-	scn.DstAddrType, scn.SrcAddrType = slayers.T4Ip, slayers.T4Ip
-	scn.RawDstAddr, scn.RawSrcAddr = []byte(l.dstIP), []byte(l.srcIP)
-	var udp slayers.UDP
-	udp.SrcPort, udp.DstPort = scionUDPSrc, scionPort
-	udp.SetNetworkLayerForChecksum(&scn)
-	sb := gopacket.NewSerializeBuffer()
-	err := gopacket.SerializeLayers(sb, gopacket.SerializeOptions{ComputeChecksums: true, FixLengths: true},
-		&scn, &udp, gopacket.Payload(payload))
-	if err != nil {
-		panic(err)
+	p := scPkt{srcIA: cliIA, dstIA: srvIA, srcIP: l.srcIP, dstIP: l.dstIP, sport: scionUDPSrc, dport: scionPort, payload: payload}
+	if spao {
+		p.spi = scion.PacketAuthSPIClient
 	}
-	return append([]byte(nil), sb.Bytes()...)
+	return p.build()
 }
 
 // unwrap returns the NTP/NTS payload of a datagram received from the listener;
-// for SCION the reply must be a SCION/UDP packet back to the requester.
-func (l *lsn) unwrap(d []byte) (payload []byte, ok bool) {
+// for SCION the reply must be a SCION/UDP packet back to the requester, with a
+// valid authenticator option exactly when the request carried one.
+func (l *lsn) unwrap(d []byte, spao bool) (payload []byte, ok bool) {
 	if !l.scion {
 		return d, true
 	}
-	defer func() {
-		if recover() != nil {
-			payload, ok = nil, false
-		}
-	}()
-	var scn slayers.SCION
-	if err := scn.DecodeFromBytes(d, gopacket.NilDecodeFeedback); err != nil {
+	p, ok := parseSC(d, scion.PacketAuthSPIServer)
+	if !ok || p.dstIA != cliIA || p.srcIA != srvIA || !bytes.Equal(p.dstIP, l.srcIP) || !bytes.Equal(p.srcIP, l.dstIP) ||
+		p.sport != scionPort || p.dport != scionUDPSrc || p.hasAuth != spao {
 		return nil, false
 	}
-	if scn.NextHdr != slayers.L4UDP || scn.DstIA != addr.IA(cliIA) || scn.SrcIA != addr.IA(srvIA) ||
-		!bytes.Equal(scn.RawDstAddr, l.srcIP) || !bytes.Equal(scn.RawSrcAddr, l.dstIP) {
-		return nil, false
-	}
-	var udp slayers.UDP
-	if err := udp.DecodeFromBytes(scn.Payload, gopacket.NilDecodeFeedback); err != nil {
-		return nil, false
-	}
-	if udp.SrcPort != scionPort || udp.DstPort != scionUDPSrc {
-		return nil, false
-	}
-	return append([]byte(nil), udp.Payload...), true
+	return p.payload, true
 }
 
 // probe sends pkt, then a sentinel, and returns the payloads of the datagrams
 // received before the sentinel's answer; ok = false: the sentinel was lost.
-func (l *lsn) probe(pkt []byte) (replies [][]byte, ok bool) {
+func (l *lsn) probe(pkt []byte, spao bool) (replies [][]byte, ok bool) {
 	l.seq++
 	s := make([]byte, 48)
 	s[0] = 4<<3 | 3
 	binary.BigEndian.PutUint32(s[40:], sentinelSecs)
 	binary.BigEndian.PutUint32(s[44:], l.seq)
-	if _, err := l.conn.WriteToUDP(l.wrap(pkt), l.dst); err != nil {
+	if _, err := l.conn.WriteToUDP(l.wrap(pkt, spao), l.dst); err != nil {
 		panic(err)
 	}
-	ws := l.wrap(s)
+	ws := l.wrap(s, false)
 	buf := make([]byte, 4096)
 	deadline := time.Now().Add(30 * time.Second)
 	for attempt := 0; attempt < 3; attempt++ {
@@ -193,17 +174,18 @@ func (l *lsn) probe(pkt []byte) (replies [][]byte, ok bool) {
 			if err != nil {
 				break
 			}
-			d, good := l.unwrap(append([]byte(nil), buf[:n]...))
+			raw := append([]byte(nil), buf[:n]...)
+			if d, good := l.unwrap(raw, false); good && len(d) == 48 && binary.BigEndian.Uint32(d[24:]) == sentinelSecs {
+				if binary.BigEndian.Uint32(d[28:]) == l.seq {
+					return replies, true
+				}
+				continue // answer to an earlier (repeated) sentinel
+			}
+			d, good := l.unwrap(raw, spao)
 			if !good {
 				// not a well-formed reply: counts as a reply that cannot verify
 				replies = append(replies, []byte{})
 				continue
-			}
-			if len(d) == 48 && binary.BigEndian.Uint32(d[24:]) == sentinelSecs && binary.BigEndian.Uint32(d[28:]) == l.seq {
-				return replies, true
-			}
-			if len(d) == 48 && binary.BigEndian.Uint32(d[24:]) == sentinelSecs {
-				continue // answer to an earlier (repeated) sentinel
 			}
 			replies = append(replies, d)
 		}
@@ -214,36 +196,30 @@ func (l *lsn) probe(pkt []byte) (replies [][]byte, ok bool) {
 	return replies, false
 }
 
-func providerKeys() string {
+func keyTable() (string, map[int][]byte) {
 	cur := theProvider.Current()
 	var ks []string
+	m := map[int][]byte{}
 	for id := 1; id <= cur.ID; id++ {
 		if k, ok := theProvider.Get(id); ok {
 			ks = append(ks, lib.L(lib.I(int64(k.ID)), lib.B(k.Value)))
+			m[k.ID] = k.Value
 		}
 	}
-	return lib.L(ks...)
+	return lib.L(ks...), m
 }
 
-// reissuedOK opens every cookie of an accepted reply with the provider's key:
-// each must name the provider's current key, open under it and yield exactly
-// the session's algorithm and keys.
-func reissuedOK(cookies [][]byte, s *session) bool {
+// reissuedOK opens every cookie of an accepted reply with the harness's own
+// code: each must name the provider's current key, open under it and yield
+// exactly the session's algorithm and keys.
+func reissuedOK(cookies [][]byte, s *session, keys map[int][]byte) bool {
 	if len(cookies) == 0 {
 		return false
 	}
-	cur := theProvider.Current()
+	cur := theProvider.Current().ID
 	for _, cb := range cookies {
-		var ec ntske.EncryptedServerCookie
-		if ec.Decode(cb) != nil || int(ec.ID) != cur.ID {
-			return false
-		}
-		key, ok := theProvider.Get(int(ec.ID))
-		if !ok {
-			return false
-		}
-		sc, err := ec.Decrypt(key.Value)
-		if err != nil || sc.Algo != s.algo || !bytes.Equal(sc.S2C, s.s2c) || !bytes.Equal(sc.C2S, s.c2s) {
+		c, ok := ownOpenCookie(cb, keys)
+		if !ok || c.id != cur || c.algo != s.algo || !bytes.Equal(c.s2c, s.s2c) || !bytes.Equal(c.c2s, s.c2s) {
 			return false
 		}
 	}
@@ -251,19 +227,26 @@ func reissuedOK(cookies [][]byte, s *session) bool {
 }
 
 // srvCase delivers b to the listener and records the case.  hs are the honest
-// requests in circulation; s is the session whose S2C key and identifier verify
-// the reply.  It returns the cookies of a reply that verified.
+// requests in circulation (the first request among them gives the identifier
+// the reply must carry); s is the session whose keys verify the reply.  It
+// returns the cookies of a reply that verified.
 func (l *lsn) srvCase(tags string, hs []*honest, b []byte, s *session) (reissued [][]byte) {
-	if l.lost || len(b) <= 48 {
-		// 48 bytes or fewer: not an NTS packet (plain NTP is answered unauthenticated; C09)
+	return l.srvCaseOpt(tags, hs, b, s, false)
+}
+
+func (l *lsn) srvCaseOpt(tags string, hs []*honest, b []byte, s *session, spao bool) (reissued [][]byte) {
+	if l.lost {
 		return nil
+	}
+	if spao {
+		tags += ",spao"
 	}
 	// AEAD answers for the model, computed through the real decoding steps
 	var ents []string
 	func() {
 		defer func() { recover() }()
 		var pkt nts.Packet
-		if nts.DecodePacket(&pkt, b) != nil {
+		if len(b) <= 48 || nts.DecodePacket(&pkt, b) != nil {
 			return
 		}
 		cb, err := pkt.FirstCookie()
@@ -288,9 +271,9 @@ func (l *lsn) srvCase(tags string, hs []*honest, b []byte, s *session) (reissued
 			ents = append(ents, openEntry(sc.C2S, pkt.Auth.Nonce, b[:pos], false, pkt.Auth.CipherText))
 		}
 	}()
-	keys := providerKeys()
+	keys, keymap := keyTable()
 	args := lib.V(HL(hs), lib.B(b), keys, tab(ents...))
-	replies, ok := l.probe(b)
+	replies, ok := l.probe(b, spao)
 	if !ok {
 		// the listener stopped answering: a failing case, and the run fails
 		l.lost, sentinelLost = true, true
@@ -301,7 +284,6 @@ func (l *lsn) srvCase(tags string, hs []*honest, b []byte, s *session) (reissued
 	replied, verified, cookiesOK := 0, 0, 0
 	if len(replies) > 0 {
 		replied = 1
-		// the reply must verify at the client: S2C key, identifier of the request
 		var uid []byte
 		for _, h := range hs {
 			if h.dir == 0 {
@@ -309,27 +291,33 @@ func (l *lsn) srvCase(tags string, hs []*honest, b []byte, s *session) (reissued
 				break
 			}
 		}
-		func() {
-			defer func() { recover() }()
-			var rp nts.Packet
-			var f ntske.Fetcher
-			if len(replies) == 1 && nts.DecodePacket(&rp, replies[0]) == nil &&
-				nts.ProcessResponse(replies[0], s.s2c, &f, &rp, uid) == nil && len(rp.Cookies) >= 1 {
+		if len(replies) == 1 && s != nil {
+			if cs, ok := ownOpenReply(replies[0], s.s2c, uid); ok && len(cs) >= 1 {
 				verified = 1
-				var cs [][]byte
-				for _, c := range rp.Cookies {
-					cs = append(cs, c.Cookie)
-				}
-				// what the client keeps is what the reply carried
-				if st := f.VerifData().Cookie; len(st) == len(cs) && reissuedOK(st, s) {
+				if reissuedOK(cs, s, keymap) {
 					cookiesOK = 1
 					reissued = cs
 				}
 			}
-		}()
+		}
+		if len(b) <= 48 && (len(replies) != 1 || len(replies[0]) != 48) {
+			// a request without NTS must get exactly one plain reply
+			verified = 1
+		}
 	}
 	w.Case(l.kind, tags, args, lib.V(lib.I(int64(replied)), lib.I(int64(verified)), lib.I(int64(cookiesOK))))
 	return reissued
+}
+
+// encodeHonest runs the real EncodePacket on the given parts and returns the
+// description of the honest request.
+func encodeHonest(r *lib.Rng, uid []byte, cookies, phs [][]byte, key []byte) *honest {
+	hdr := make([]byte, 48)
+	hdr[0] = 4<<3 | 3
+	copy(hdr[40:], r.Bytes(8))
+	nonce := r.Bytes(16)
+	out, fields, pos, ct := encodeCase("honest", hdr, uid, cookies, phs, key, nil, nonce, false, 0, "")
+	return &honest{b: out, pos: pos, nonce: nonce, ct: ct, key: key, dir: 0, uid: uid, fields: fields}
 }
 
 // lsnRequest builds a request of session x exactly as the client does.
@@ -345,24 +333,19 @@ func lsnRequest(r *lib.Rng, x *session) *honest {
 	for _, c := range pkt.CookiePlaceholders {
 		phs = append(phs, c.Cookie)
 	}
-	hdr := make([]byte, 48)
-	hdr[0] = 4<<3 | 3
-	copy(hdr[40:], r.Bytes(8))
-	nonce := r.Bytes(16)
-	out, fields, pos, ct := encodeCase("honest", hdr, id, cs, phs, pkt.Auth.Key, pkt.Auth.PlainText, nonce, false)
-	return &honest{b: out, pos: pos, nonce: nonce, ct: ct, key: x.c2s, dir: 0, uid: id, fields: fields}
+	return encodeHonest(r, id, cs, phs, pkt.Auth.Key)
 }
 
 // honestAndFollowUp sends an honest request of s; when it is answered, a
 // follow-up request that uses one of the re-issued cookies must be answered too.
-func (l *lsn) honestAndFollowUp(r *lib.Rng, tags string, s *session, q *honest, others []*honest) {
-	re := l.srvCase(tags, append([]*honest{q}, others...), q.b, s)
+func (l *lsn) honestAndFollowUp(r *lib.Rng, tags string, s *session, q *honest, others []*honest, spao bool) {
+	re := l.srvCaseOpt(tags, append([]*honest{q}, others...), q.b, s, spao)
 	if len(re) == 0 {
 		return
 	}
 	f := &session{c2s: s.c2s, s2c: s.s2c, algo: s.algo, pool: [][]byte{re[r.Intn(len(re))]}}
 	fq := lsnRequest(r, f)
-	l.srvCase("nt,honest,complete,followup", append([]*honest{fq}, others...), fq.b, f)
+	l.srvCaseOpt("nt,honest,complete,followup", append([]*honest{fq}, others...), fq.b, f, spao)
 }
 
 func lsnSession(r *lib.Rng, n int) *session {
@@ -431,8 +414,53 @@ func (l *lsn) freshRequests(r *lib.Rng, s *session, q *honest, n int, deep bool)
 	}
 }
 
+// foreignLayout assembles an honest request by hand (another client
+// implementation): the extension fields in the given order, sealed with
+// miscreant directly.  order: 'u' identifier, 'c' cookie, 'p' placeholder, 'x' unknown field.
+func foreignLayout(r *lib.Rng, order string, uid []byte, cookies [][]byte, key []byte) *honest {
+	b := make([]byte, 48)
+	b[0] = 4<<3 | 3
+	copy(b[40:], r.Bytes(8))
+	fieldOf := func(t uint16, body []byte) []byte {
+		body = append(clone(body), make([]byte, pad4(len(body))-len(body))...)
+		f := make([]byte, 4, 4+len(body))
+		binary.BigEndian.PutUint16(f, t)
+		binary.BigEndian.PutUint16(f[2:], uint16(4+len(body)))
+		return append(f, body...)
+	}
+	ci := 0
+	var fields []field
+	for _, o := range order {
+		var f []byte
+		switch o {
+		case 'u':
+			f = fieldOf(0x104, uid)
+		case 'c':
+			f = fieldOf(0x204, cookies[ci])
+			ci++
+		case 'p':
+			f = fieldOf(0x304, make([]byte, len(cookies[0])))
+		default:
+			f = fieldOf(0x7701, r.Bytes(12))
+		}
+		fields = append(fields, field{off: len(b), length: len(f), typ: binary.BigEndian.Uint16(f)})
+		b = append(b, f...)
+	}
+	pos := len(b)
+	nonce := r.Bytes(16)
+	ct := ownSeal(key, nonce, nil, b)
+	body := make([]byte, 4)
+	binary.BigEndian.PutUint16(body, 16)
+	binary.BigEndian.PutUint16(body[2:], uint16(len(ct)))
+	body = append(append(body, nonce...), ct...)
+	b = append(b, fieldOf(0x404, body)...)
+	fields = append(fields, field{off: pos, length: len(b) - pos, typ: 0x404})
+	return &honest{b: b, pos: pos, nonce: nonce, ct: ct, key: key, dir: 0, uid: uid, fields: fields}
+}
+
 func extraCases(r *lib.Rng, thorough bool) {
 	ls := getLsns()
+	realKE(r, ls[0])
 	rounds := 2
 	if thorough {
 		rounds = 8
@@ -461,19 +489,73 @@ func (l *lsn) round(r *lib.Rng, thorough bool, olds []*session, deep bool) {
 	q := lsnRequest(r, s)
 	oq := lsnRequest(r, o)
 	hs := []*honest{q, oq}
-	l.honestAndFollowUp(r, "nt,honest,complete", s, q, []*honest{oq})
-	l.honestAndFollowUp(r, "nt,honest,complete", o, oq, []*honest{q})
+	l.honestAndFollowUp(r, "nt,honest,complete", s, q, []*honest{oq}, false)
+	l.honestAndFollowUp(r, "nt,honest,complete", o, oq, []*honest{q}, false)
 	nfresh := 40
 	if thorough {
 		nfresh = 200
 	}
 	l.freshRequests(r, s, q, nfresh, deep)
+	// identifiers of other lengths, several cookies (the first one counts), no placeholders,
+	// many placeholders, and requests assembled by hand in another field order
+	for _, ul := range []int{36, 64, 33, 48} {
+		x := encodeHonest(r, r.Bytes(ul), [][]byte{s.pool[0]}, [][]byte{make([]byte, len(s.pool[0]))}, s.c2s)
+		l.srvCase(fmt.Sprintf("nt,honest,complete,uidlen%d", ul), []*honest{x, q}, x.b, s)
+	}
+	{
+		x := encodeHonest(r, r.Bytes(32), [][]byte{s.pool[0], o.pool[0]}, nil, s.c2s)
+		l.srvCase("nt,honest,complete,twocookies", []*honest{x, q}, x.b, s)
+		// the other client's cookie first: the request is sealed with this client's key, the
+		// server takes the C2S key of the first cookie - not accepted
+		y := encodeHonest(r, r.Bytes(32), [][]byte{o.pool[0], s.pool[0]}, nil, s.c2s)
+		l.srvCase("nt,wrongkey,cookieorder", []*honest{q}, y.b, s)
+		z := encodeHonest(r, r.Bytes(32), [][]byte{s.pool[0], s.pool[0], s.pool[0]}, [][]byte{make([]byte, len(s.pool[0])), make([]byte, len(s.pool[0]))}, s.c2s)
+		l.srvCase("nt,honest,complete,threecookies", []*honest{z, q}, z.b, s)
+	}
+	for _, order := range []string{"pcu", "xucp", "cu", "upc", "ucx"} {
+		x := foreignLayout(r, order, r.Bytes(32), [][]byte{s.pool[0]}, s.c2s)
+		l.srvCase("nt,honest,foreignlayout", []*honest{x, q}, x.b, s)
+	}
+	// AES-SIV with an empty plaintext never uses the second half of the key: a request
+	// sealed under a key that differs from the cookie's C2S key in the second half only.
+	// Recorded as observed (tag ctrhalf); the oracle of the listener does not judge the key.
+	{
+		k2 := clone(s.c2s)
+		k2[len(k2)-1] ^= 1
+		x := encodeHonest(r, r.Bytes(32), [][]byte{s.pool[0]}, nil, k2)
+		l.srvCase("nt,wrongkey,ctrhalf", []*honest{x, q}, x.b, s)
+		k3 := clone(s.c2s)
+		k3[0] ^= 1
+		y := encodeHonest(r, r.Bytes(32), [][]byte{s.pool[0]}, nil, k3)
+		l.srvCase("nt,wrongkey,machalf", []*honest{q}, y.b, s)
+	}
+	// datagrams without NTS: a plain 48-byte request is answered (without NTS), shorter ones are not
+	for _, cut := range []int{48, 47, 1, 0} {
+		l.srvCase("plain,short", hs, clone(q.b[:cut]), s)
+	}
+	if l.scion {
+		// the same with a valid SCION packet authenticator: honest requests are answered (the
+		// reply carries an authenticator too), tampered NTS is not answered although the SPAO is valid
+		sq := lsnRequest(r, s)
+		l.honestAndFollowUp(r, "nt,honest,complete", s, sq, []*honest{oq}, true)
+		for i := 0; i < len(sq.b)*8; i++ {
+			if r.Intn(24) != 0 {
+				continue
+			}
+			c := clone(sq.b)
+			c[i/8] ^= 1 << (i % 8)
+			l.srvCaseOpt(ntTag(sq.region(i/8))+",bit", []*honest{sq, oq}, c, s, true)
+		}
+		structural(sq, target{dir: 0, key: s.c2s, l: l, sess: s, spao: true}, r)
+		l.srvCaseOpt("nt,history,splice", []*honest{sq, oq}, append(clone(sq.b[:sq.pos]), oq.b[oq.pos:]...), s, true)
+		l.srvCaseOpt("plain,short", []*honest{sq}, clone(sq.b[:48]), s, true)
+	}
 	// clients whose cookies were sealed under an older key of the provider: answered
 	// while that key is valid (with cookies under the current key), not afterwards
 	for _, x := range olds {
 		xq := lsnRequest(r, x)
 		if _, ok := theProvider.Get(x.keyid); ok {
-			l.honestAndFollowUp(r, "nt,honest,complete,oldkey", x, xq, []*honest{q})
+			l.honestAndFollowUp(r, "nt,honest,complete,oldkey", x, xq, []*honest{q}, false)
 		} else {
 			l.srvCase("nt,wrongkey,expired", []*honest{q}, xq.b, x)
 		}
@@ -535,12 +617,58 @@ func (l *lsn) round(r *lib.Rng, thorough bool, olds []*session, deep bool) {
 	l.srvCase("nt,history,reflect", []*honest{q, p}, p.b, s)
 }
 
+// realKE: the real NTS-KE server of this process and the real ntske.Fetcher: the
+// cookies the server issues are opened with the harness's own code and the
+// provider's key: they must hold the client's exported keys by direction; the
+// first request built from them must be answered by the listener.
+func realKE(r *lib.Rng, l *lsn) {
+	quiet := slog.New(quietHandler{})
+	n := 3
+	for i := 0; i < n; i++ {
+		var f ntske.Fetcher
+		f.Log = quiet
+		f.TLSConfig.InsecureSkipVerify = true
+		f.TLSConfig.ServerName = lsnIP().String()
+		f.TLSConfig.MinVersion = tls.VersionTLS13
+		f.Port = fmt.Sprint(ntske.ServerPortIP)
+		ctx, cancel := context.WithTimeout(context.Background(), 20*time.Second)
+		data, err := f.FetchData(ctx)
+		cancel()
+		if err != nil {
+			panic(fmt.Sprintf("c10: key exchange with the real NTS-KE server failed: %v", err))
+		}
+		all := data.Cookie // FetchData returns all cookies it holds (and keeps all but the first)
+		keys, keymap := keyTable()
+		var ents, obs []string
+		for _, cb := range all {
+			var ec ntske.EncryptedServerCookie
+			if ec.Decode(cb) == nil {
+				if k, ok := keymap[int(ec.ID)]; ok && len(ec.Nonce) == 16 {
+					ents = append(ents, openEntry(k, ec.Nonce, nil, true, ec.Ciphertext))
+				}
+			}
+			c, ok := ownOpenCookie(cb, keymap)
+			if !ok {
+				obs = append(obs, lib.L("1", "0", "x", "x"))
+			} else {
+				obs = append(obs, lib.L("0", lib.I(int64(c.algo)), lib.B(c.s2c), lib.B(c.c2s)))
+			}
+		}
+		w.Case("ke.real", "nt,honest,complete,realke",
+			lib.V(lib.B(data.C2sKey), lib.B(data.S2cKey), BL(all), keys, tab(ents...)),
+			lib.V(lib.I(int64(data.Algo)), lib.Bool(data.Server == lsnIP().String() && int(data.Port) == lsnPort), lib.L(obs...)))
+		s := &session{c2s: data.C2sKey, s2c: data.S2cKey, algo: data.Algo, pool: all}
+		q := lsnRequest(r, s)
+		l.honestAndFollowUp(r, "nt,honest,complete,realke", s, q, nil, false)
+	}
+}
+
 func replayExtra(c [3]string) {
-	if c[0] == "cl.ip" {
+	if c[0] == "cl.ip" || c[0] == "cl.scion" {
 		replayClient()
 		return
 	}
-	if c[0] != "srv.ip" && c[0] != "srv.scion" {
+	if c[0] != "srv.ip" && c[0] != "srv.scion" && c[0] != "ke.real" {
 		return
 	}
 	// the listeners have their own fresh server key: a recorded datagram cannot be
